@@ -61,7 +61,8 @@ func newC14Scene(r *rng, k int) *c14Scene {
 	s.repo, s.dir = newGoGit("c14", false)
 	for i := 0; i < k; i++ {
 		rem, _ := newGoGit(fmt.Sprintf("c14rem%d", i), true)
-		name := fmt.Sprintf("rem%d", i)
+		// (one name is a prefix of another: "rem0" and "rem01")
+		name := []string{"rem0", "rem01", "rem2", "rem3"}[i]
 		s.repo.AddRemote(name, rem.GetLocalRemote())
 		s.remotes = append(s.remotes, name)
 		rem.Close()
